@@ -32,13 +32,13 @@ def cpp_errclass(stderr: str) -> str:
 
 
 class CppEndpoint:
-    def __init__(self, m: mut.Mut, flavor="plain", bufs=None):
-        self.m, self.flavor, self.bufs = m, flavor, bufs
-        self.name = "cpp-" + flavor
+    def __init__(self, m: mut.Mut, flavor="plain", bufs=None, empty_batches=False):
+        self.m, self.flavor, self.bufs, self.empty_batches = m, flavor, bufs, empty_batches
+        self.name = "cpp-" + flavor + ("-emptybatches" if empty_batches else "")
 
     def copy(self, proto: str, infmt: str, outfmt: str, data: bytes, **kw) -> Result:
         p = self.m.cpp_copy(proto, infmt, outfmt, data, flavor=self.flavor, bufs=kw.get("bufs", self.bufs),
-                            version=kw.get("version"))
+                            version=kw.get("version"), empty_batches=self.empty_batches)
         return Result(p.rc, p.sig, p.out, p.stderr, p.timed_out, p.cpu_exceeded, cpp_errclass(p.stderr))
 
 
